@@ -192,6 +192,9 @@ type C07Case struct {
 	// type-only chain; ParamInput maps a parameter name to the token of the
 	// input carrying that name.
 	ParamInput map[string]int `json:"paramInput,omitempty"`
+	// Bystander: id of a converter that takes the name explicitly but makes a
+	// type nobody needs (0 = none)
+	Bystander int `json:"bystander,omitempty"`
 }
 
 // traceToInput follows a value back through single-input converter
@@ -233,6 +236,9 @@ func evalC07(c *engine.Case) engine.Verdict {
 	sc := c.Sc
 	engine.ScenarioClasses(&v, sc)
 	v.Class(fmt.Sprintf("shape=%d", x.Shape))
+	if x.Bystander != 0 {
+		v.Class("bystander-converter-takes-the-name")
+	}
 	for _, in := range sc.Inputs {
 		if in.Tok == x.NameInput && in.L.Sub != "" {
 			v.Class("same-named-input-carries-subtype")
@@ -402,6 +408,24 @@ func genC07(g engine.G) *engine.Case {
 		}
 		x.NamedConv = id
 		convs = append(convs, fs)
+	}
+	if x.Shape != 2 && g.Pct(40) {
+		// a bystander: a converter that takes the NAME explicitly (without
+		// subtype) but produces a type nobody needs. It is never executed;
+		// its mere presence puts the requirement n:T0 into the graph.
+		for _, t := range rapidPerm(g, types) {
+			used := false
+			for _, c := range chain {
+				used = used || c == t
+			}
+			if !used {
+				id++
+				convs = append(convs, engine.FuncSpec{ID: id, In: []engine.Label{{Name: n, Type: t0, Dyn: t0}}, InForm: engine.Pick(g, []string{engine.FormStruct, engine.FormPtr}),
+					Out: []engine.Label{{Type: t, Dyn: t}}, OutForm: typedForm(), HasErr: g.Bool()})
+				x.Bystander = id
+				break
+			}
+		}
 	}
 	sc.Convs = rapidPerm(g, convs)
 	sc.Target = engine.FuncSpec{ID: engine.TargetID, In: []engine.Label{{Name: n, Type: t1, Dyn: t1}}, InForm: engine.Pick(g, []string{engine.FormStruct, engine.FormPtr}), OutForm: engine.FormPos}
